@@ -1,4 +1,5 @@
 import Capella.Lemmas.Delete
+import Capella.Lemmas.AccessorProps
 
 /-!
 # C09 — deleting an object is all-or-nothing and leaves no reachable reference to it
@@ -81,5 +82,39 @@ def exG : G := { elems := [1, 2, 3, 4, 5],
                  refs := [⟨2, "allocated", .attrList, 1, 2⟩, ⟨3, "links", .linkElem, 1, 4⟩, ⟨5, "ends", .refusing, 3, 5⟩] }
 example : (delete exG [1]).toOption.map (fun g => (g.elems, g.refs.length)) = some ([2, 3, 5], 1) := by decide
 example : (delete exG [3]).toOption.isNone = true := by decide
+
+/-! ### deletion through the accessors (`Model/Accessor.lean`: `_delete` over the real tree) -/
+section Accessor
+open Capella.Accessor Capella.AccTable
+
+/-- The enter phase of `_delete` — walking the subtrees (also into other fragment files), searching the references
+of every element, entering one purge context per writable referring relation — writes nothing, whatever it returns
+or raises. -/
+theorem deletion_enter_phase_writes_nothing (t : Tables) (self : ARow) (elements : List Nat) (s : State) :
+    Same s (deleteEnter t self elements s).st :=
+  (frame_deleteEnter t self elements).fr s
+
+/-- **Refusal is all-or-nothing**: if any purge context refuses on entering (a `PhysicalLinkEndsAccessor` reference,
+a `TypecastAccessor` whose class lacks the attribute, a dangling placeholder, …) the deletion raises that error and
+every tree, every index and the set of detached elements are exactly as before. -/
+theorem refused_deletion_changes_nothing_api (t : Tables) (self : ARow) (elements : List Nat) (s : State)
+    (e : Capella.Accessor.Err) (h : (deleteEnter t self elements s).val = .error e) :
+    (deleteElems t self elements s).val = .error e ∧ Same s (deleteElems t self elements s).st :=
+  deleteElems_refused t self elements s e h
+
+/-- Deleting through any entry point keeps the indexes right: whatever is removed (the subtrees, the purged link
+elements) is un-indexed by the very instruction that removes it. -/
+theorem deletion_keeps_indexes_right (t : Tables) (self : ARow) (elements : List Nat) (s : State) (h : IxInv s.ix) :
+    IxInv (deleteElems t self elements s).st.ix :=
+  (pres_deleteElems t self elements).pres s h
+
+end Accessor
+
+-- Non-vacuity: the enter phase can fail (here: the target is not an element of the model), which is the hypothesis
+-- of `refused_deletion_changes_nothing_api`.
+example : (match (Capella.Accessor.deleteEnter ⟨[], []⟩
+      ⟨"C", "members", .directProxyAccessor, true, true, 0, false, ["T"], none, none, none, [], false, none, [], none, []⟩
+      [99] { frags := [], ix := [] }).val with
+    | .error _ => true | .ok _ => false) = true := by decide +kernel
 
 end Capella.Props.C09
